@@ -9,11 +9,11 @@
       growth_policy_bounds, *_capacity  the growth policy and when reallocation happens
       view_*                            ArrayView_ (nested) aliases exactly its sub-range
       *_refuted                         push_back / insert / resize with a value that refers to the array's own element (DESIGN 7.10)
-    Pointer wrappers: cow_* (CloneOnWritePtr, every operation sequence), reference_ptr_*, reset_on_copy_*, reinit_on_copy_*,
+    Pointer wrappers: cow_* (CloneOnWritePtr, every operation sequence), clone_ptr_* (ClonePtr, every operation sequence), reference_ptr_*, reset_on_copy_*, reinit_on_copy_*,
       copies_do_not_carry_value. *)
 From Coq Require Import List Arith Bool NArith.
 Import ListNotations.
-Require Import C26_Model C26_Lemmas C26_Ops C26_Guard C26_Proofs C26_Ptr C26_PtrProofs.
+Require Import C26_Model C26_Lemmas C26_Ops C26_Guard C26_Proofs C26_Ptr C26_PtrProofs C26_CloneProofs.
 
 Theorem C26_refines_list :
   forall (elt : Type) (dflt : elt) (guard : bool) (k : nat) (ops : list (op elt)) (ls : list (list elt)),
@@ -314,3 +314,28 @@ Theorem C26_copies_do_not_carry_value :
   end.
 Proof. exact (@copies_do_not_carry_value). Qed.
 Print Assumptions C26_copies_do_not_carry_value.
+
+Theorem C26_clone_ptr_copies_independent :
+  forall (elt : Type) (k : nat) (ops : list (pop elt)) (vs : list (option elt)),
+  pspec_run (repeat None k) ops = Some vs ->
+  exists s : pst elt, prun true (pinit k) ops = Some s /\ (forall p : nat, pvalue s p = nth p vs None).
+Proof. exact (@clone_ptr_copies_independent). Qed.
+Print Assumptions C26_clone_ptr_copies_independent.
+
+Theorem C26_clone_ptr_precondition_only :
+  forall (elt : Type) (k : nat) (ops : list (pop elt)),
+  pspec_run (repeat None k) ops = None -> prun true (pinit k) ops = None.
+Proof. exact (@clone_ptr_precondition_only). Qed.
+Print Assumptions C26_clone_ptr_precondition_only.
+
+Theorem C26_clone_ptr_never_shares :
+  forall (elt : Type) (k : nat) (ops : list (pop elt)) (s : pst elt),
+  prun true (pinit k) ops = Some s ->
+  (forall p q i : nat, p <> q -> getv s p = Some (Some i) -> getv s q <> Some (Some i)) /\
+  (forall i : nat,
+   match cell s i with
+   | Some (_, c) => c = 1 /\ occ i (vars s) = 1
+   | None => occ i (vars s) = 0
+   end).
+Proof. exact (@clone_ptr_never_shares). Qed.
+Print Assumptions C26_clone_ptr_never_shares.
